@@ -4,6 +4,7 @@ From ChiaV.Clvm Require Import Sexp Ints.
 From ChiaV.Gen Require Import Opcodes.
 From ChiaV.Cond Require Import Model Spec Facts.
 Open Scope N_scope.
+From ChiaV.Cond Require Import Invariants Syntax Collect Rules Refine.
 From ChiaV.Props Require Import C01.
 Check C01_opcodes_are_consensus :
   [REMARK; AGG_SIG_PARENT; AGG_SIG_PUZZLE; AGG_SIG_AMOUNT; AGG_SIG_PUZZLE_AMOUNT; AGG_SIG_PARENT_AMOUNT;
@@ -29,3 +30,23 @@ Check C01_flags_are_consensus :
   ANNOUNCE_LIMIT = Spec.ANNOUNCE_LIMIT /\ ELIGIBLE_FOR_DEDUP = Spec.ELIGIBLE_FOR_DEDUP /\
   HAS_RELATIVE_CONDITION = Spec.HAS_RELATIVE_CONDITION /\ ELIGIBLE_FOR_FF = Spec.ELIGIBLE_FOR_FF.
 Print Assumptions C01_flags_are_consensus.
+Check C01_syntax_then_semantics :
+  forall vk H K fl V t max_cost clvm_cost r,
+  parse_spends vk H K fl V t max_cost clvm_cost = Ok r <->
+  exists ps, tree_syntax fl t = Ok ps /\ bundle_sem vk H K fl V ps max_cost clvm_cost = Ok r.
+Print Assumptions C01_syntax_then_semantics.
+Check C01_deferred_validation_iff :
+  forall vk H K fl V ps max_cost clvm_cost ret state cl,
+  spends_sem vk H K fl V ps empty_bundle empty_state max_cost
+             (if f_limit_spends fl then Some MAX_SPENDS_PER_BLOCK else None) clvm_cost = Ok (ret, state, cl) ->
+  (validate_conditions H ret (post_process H V (fast_rev (b_spends_rev ret)) state) state = Ok tt <->
+   b_addition ret + b_reserve_fee ret <= b_removal ret /\
+   match b_before_height_absolute ret with Some bh => b_height_absolute ret < bh | None => True end /\
+   match b_before_seconds_absolute ret with Some bs => b_seconds_absolute ret < bs | None => True end /\
+   CrossRules H ps).
+Print Assumptions C01_deferred_validation_iff.
+Check C01_accepted_satisfies_cross_rules :
+  forall vk H K fl V t max_cost clvm_cost r,
+  parse_spends vk H K fl V t max_cost clvm_cost = Ok r ->
+  exists ps, tree_syntax fl t = Ok ps /\ CrossRules H ps.
+Print Assumptions C01_accepted_satisfies_cross_rules.
